@@ -491,6 +491,107 @@ def files_case(case):
         shutil.rmtree(d, ignore_errors=True)
 
 
+REGEX_STEPS = [
+    # (pattern for the "re" matcher, step text) - argument spans: flat, adjacent, nested (inner at start / middle / end of
+    # the outer group), nested twice, optional group not taking part, argument at the very start / end of the text
+    (r"I buy (?P<count>\d+) (?P<fruit>\w+)", "I buy 3 apples"),
+    (r"I buy (?P<a>\d)(?P<b>\d) things", "I buy 42 things"),
+    (r"I buy (?P<item>(?P<count>\d+) (?P<fruit>\w+))", "I buy 3 apples"),
+    (r"I buy (?P<item>(?P<count>\d+) \w+) now", "I buy 3 apples now"),
+    (r"I buy (?P<item>\w+ (?P<fruit>\w+)) now", "I buy three apples now"),
+    (r"I buy (?P<item>a (?P<mid>\w+) b)", "I buy a big b"),
+    (r"(?P<all>I (?P<verb>\w+) (?P<rest>(?P<n>\d+) (?P<what>\w+)))", "I buy 3 apples"),
+    (r"I buy (?P<count>\d+)(?: (?P<unit>kg))? of (?P<what>\w+)", "I buy 3 of apples"),
+    (r"(?P<who>\w+) buys (?P<what>\w+)", "Alice buys apples"),
+    (r"(\w+) sells (\w+)", "Bob sells pears"),
+]
+
+
+def regex_args_case(case):
+    """steps bound by the regular-expression matcher with flat / adjacent / nested / optional groups: pretty assembles
+    its step line from the argument spans - the line must still show the step exactly as the model (and plain) has it"""
+    idxs, outcome = case
+    import sys
+    m = harness._imp()
+    harness.reset_globals()
+    config = m["Configuration"](["--no-summary", "--no-color"], load_config=False)
+    reg = m["StepRegistry"]()
+    m["matchers"].use_step_matcher("re")
+    calls = []
+    try:
+        for k in idxs:
+            pat, text = REGEX_STEPS[k]
+
+            def impl(ctx, *a, **kw):
+                calls.append(1)
+                if outcome == "fail" and len(calls) == len(idxs):
+                    assert False, "boom"
+            reg.add_step_definition("step", pat, impl)
+    finally:
+        m["matchers"].use_step_matcher("parse")
+    lines = ["Feature: R", "  Scenario: S"] + ["    Given %s" % REGEX_STEPS[k][1] for k in idxs]
+    feats = [m["parse_feature"]("\n".join(lines) + "\n", filename="r.feature")]
+    outs = {}
+    from behave.formatter import _registry
+    from behave.formatter.base import StreamOpener
+    fmts = []
+    for name in ("pretty", "plain", "json"):
+        st = io.StringIO()
+        outs[name] = st
+        fmts.append(_registry.select_formatter_class(name)(StreamOpener(stream=st), config))
+    runner = m["ModelRunner"](config, feats, step_registry=reg)
+    runner.hooks = {}
+    runner.formatters = fmts
+    old = sys.stdout, sys.stderr
+    sys.stdout, sys.stderr = io.StringIO(), io.StringIO()
+    v = []
+    try:
+        try:
+            runner.run()
+        except BaseException as e:      # noqa
+            v.append(({"subcheck": "regex-arguments", "clause": "exception-escapes-run", "exc": type(e).__name__},
+                      "run() raised %r for steps %r" % (e, [REGEX_STEPS[k][1] for k in idxs])))
+    finally:
+        sys.stdout, sys.stderr = old
+    if not v:
+        steps = list(feats[0].scenarios[0].steps)
+        pretty_lines = [l for l in outs["pretty"].getvalue().splitlines() if l.strip().startswith("Given ")]
+        # pretty prints each step once in a non-tty stream; the text before the location comment is the step
+        shown = [re.sub(r"\s+#.*$", "", l).strip() for l in pretty_lines]
+        want = ["Given %s" % st_.name for st_ in steps]
+        if shown != want:
+            v.append(({"subcheck": "regex-arguments", "clause": "pretty-step-text",
+                       "groups": "nested" if any("(?P<item>(" in REGEX_STEPS[k][0] or "(?P<all>" in REGEX_STEPS[k][0]
+                                                   or "(?P<item>\\w+ (" in REGEX_STEPS[k][0] or "(?P<item>a (" in REGEX_STEPS[k][0]
+                                                   for k in idxs) else "flat"},
+                      "pretty shows %r, the model has %r" % (shown, want)))
+        plain_lines = [l.strip() for l in outs["plain"].getvalue().splitlines() if l.strip().startswith("Given ")]
+        shown_p = [re.sub(r" \.\.\. \w+( in [\d.]+s)?$", "", l) for l in plain_lines]
+        if shown_p != want:
+            v.append(({"subcheck": "regex-arguments", "clause": "plain-step-text"},
+                      "plain shows %r, the model has %r" % (shown_p, want)))
+        try:
+            data = json.loads(outs["json"].getvalue())
+            jnames = [s_["name"] for s_ in data[0]["elements"][0]["steps"]]
+            if jnames != [st_.name for st_ in steps]:
+                v.append(({"subcheck": "regex-arguments", "clause": "json-step-text"},
+                          "json has %r, the model %r" % (jnames, [st_.name for st_ in steps])))
+        except Exception as e:          # noqa
+            v.append(({"subcheck": "regex-arguments", "clause": "invalid-json"}, "json does not parse: %r" % (e,)))
+    return {"v": v, "nt": digest(case), "out": ("regex", len(idxs), outcome), "dg": mask(outs["pretty"].getvalue())}
+
+
+def regex_args_cases(tier):
+    n = len(REGEX_STEPS)
+    for k in range(n):
+        for outcome in ("pass", "fail"):
+            yield ((k,), outcome)
+    for a in range(n):
+        for b in range(n):
+            if a != b and (tier != "quick" or (a + b) % 3 == 0):
+                yield ((a, b), "pass")
+
+
 def fault_case(case):
     """a cleanup registered at feature / rule / scenario level raises when its layer ends, or one hook invocation
     raises: the statuses written by the JSON formatter (read at eof / scenario end) must be the FINAL ones of the
@@ -723,6 +824,8 @@ def run(ctx):
     ctx.bounds = {"formatters": len(FORMATTERS), "lineup_size": "1-2 all ordered; 3 over a 5-formatter core",
                   "deviations": 1 if ctx.quick else 2, "switch_combinations": len(SWITCHES)}
     ctx.sweep(run_case, cases(ctx.tier), chunk=24, name="programs x formatter line-ups x switches")
+    ctx.sweep(regex_args_case, regex_args_cases(ctx.tier), chunk=8,
+              name="steps bound by regular expressions with flat / nested / optional groups (argument spans)")
     ctx.sweep(fault_case, fault_cases(ctx.tier), chunk=8,
               name="raising cleanups at every level (thorough: every hook fault): JSON statuses are the final ones")
     ctx.sweep(skipping_case, skipping_cases(ctx.tier), chunk=16,
